@@ -129,7 +129,8 @@ def run(tier, seed):
     # first half of the property, differential: chains of precondition-carrying operations on glam's own outputs, glam-assert vs plain builds
     from .. import chains
     cstat, cbad = chains.run(idx, seed, 1500 if tier == 'quick' else 20000, 12)
-    notes['chains'] = cstat; wbad = wbad + cbad[:10]
+    cstat64, cbad64 = chains.run(idx, seed + 1, 750 if tier == 'quick' else 10000, 12, prec='f64')
+    notes['chains'] = cstat; notes['chains_f64'] = cstat64; wbad = wbad + cbad[:10] + cbad64[:10]
     per_fn = 2 if tier == 'quick' else 20
     # differential: the same calls on the assert and plain drivers must agree whenever the assert build returns
     return f1.run('C20', tier, seed, idx, info, t0, files, notes, cover, HDR, per_fn,
